@@ -3,7 +3,7 @@
    types; andb/orb inlined) and ExtrOcamlString (ascii => char, string => char list). nat, N, Z, positive
    stay the extracted inductive datatypes. *)
 From Coq Require Import Extraction ExtrOcamlBasic ExtrOcamlString.
-From GV Require Import Base.Util Spec.Smiles Spec.Chem Spec.Iso Model.PyLite Gen.Converter Gen.Tables Model.Library Model.Gate Spec.Graft Model.Merger Spec.Ebnf Gen.Grammar Spec.Reader Model.Edge Spec.Modify Spec.Skeleton Model.Walker.
+From GV Require Import Base.Util Spec.Smiles Spec.Chem Spec.Iso Model.PyLite Gen.Converter Gen.Tables Model.Library Model.Gate Spec.Graft Model.Merger Spec.Ebnf Gen.Grammar Spec.Reader Model.Edge Spec.Modify Spec.Skeleton Model.Walker Model.Splice.
 Extraction Language OCaml.
 Extraction "../_build/extracted/gv.ml"
   Util.s2l Util.nat2str Util.str2nat
@@ -22,4 +22,5 @@ Extraction "../_build/extracted/gv.ml"
   Modify.modify_all Modify.fragment_kind
   Skeleton.deoxy Skeleton.anhydro Skeleton.oxidise Skeleton.reduce_ring Skeleton.terminal_carbon Skeleton.chain_length Skeleton.position Iso.same_except_at Iso.inverted_exactly_at
   Walker.parse_begin Walker.walk
+  Splice.splice_children Splice.splice_check
   Iso.same_molecule Iso.same_constitution Iso.mirror_image Iso.iso_profiles Iso.strip_h.
